@@ -14,9 +14,10 @@ package sql
 // a persister is only built by NewPersister, with its dependencies (assumed, like T8)
 //@ fieldinv sql.Persister.d: val != nil
 //@ func (*Persister).NetworkID
-//@   props C06
+//@   props C06 C17
 //@   modifies nothing
 //@   requires p != nil
+//@   ensures[C17] read-only: db == old(db)
 //@   ensures[C06] the-contextualizer-is-asked-on-every-request: result == netid(p, ctx)
 
 //@ func dependencies.Contextualizer
